@@ -51,7 +51,7 @@ def strategy(tier):
     files = [f for f in corpus.files() if _ok_file(f)]
     return st.fixed_dictionaries(
         {
-            "file": st.sampled_from(files),
+            "file": common.source_strategy(files),
             "level": st.sampled_from([0, 1, 2, 3]),
             "lseed": st.integers(0, 2**31 - 1),
             "tabs": st.just(False),
